@@ -366,6 +366,8 @@ func (v *Verifier) applyContract(st *State, in *ssa.Call, c *Contract, fn *ssa.F
 		oldHeap[k] = h
 	}
 	oldLW := st.lw()
+	freshVars := map[*Term]bool{}
+	pcBefore := len(st.pc)
 	if !c.Pure {
 		for _, m := range append(append([]string{}, c.Modifies...), c.Allocs...) {
 			if i := indexOf(names, m); i >= 0 {
@@ -373,6 +375,7 @@ func (v *Verifier) applyContract(st *State, in *ssa.Call, c *Contract, fn *ssa.F
 				if pt, ok := tys[i].Underlying().(*types.Pointer); ok {
 					cell := sortOf(pt.Elem())
 					f := Fresh(m+"_cell", cell)
+					freshVars[f] = true
 					for _, t := range typeInv(f, pt.Elem(), 0) {
 						st.assume(t)
 					}
@@ -382,6 +385,7 @@ func (v *Verifier) applyContract(st *State, in *ssa.Call, c *Contract, fn *ssa.F
 			}
 			if cell, ref, et, ok := evalModTarget(env, m); ok {
 				f := Fresh("cell", cell)
+				freshVars[f] = true
 				if et != nil {
 					for _, t := range typeInv(f, et, 0) {
 						st.assume(t)
@@ -406,7 +410,9 @@ func (v *Verifier) applyContract(st *State, in *ssa.Call, c *Contract, fn *ssa.F
 			if isAllocOnly {
 				st.setHeap(cell, HeapExt(old, oldLW))
 			} else {
-				st.setHeap(cell, Fresh(heapName(cell), heapSort(cell)))
+				nh := Fresh(heapName(cell), heapSort(cell))
+				freshVars[nh] = true
+				st.setHeap(cell, nh)
 			}
 		}
 		st.havocLW()
@@ -427,6 +433,9 @@ func (v *Verifier) applyContract(st *State, in *ssa.Call, c *Contract, fn *ssa.F
 		st.assume(env.evalBool(e.Expr))
 		v.assumeNote("history variable defined by contract of " + c.Key + ": " + e.Text)
 	}
+	// equations that pin a freshly havocked heap, cell or field to a term are turned into
+	// assignments: the solver then sees updated terms instead of array/record equations
+	v.propagateDefs(st, freshVars, pcBefore)
 	// a result the contract pins to a term (r == t) is replaced by that term, so that
 	// structured values (e.g. literal ++ decimal strings) stay visible to the models
 	for _, r := range rs {
@@ -526,4 +535,96 @@ func evalModTarget(env *SpecEnv, item string) (cell *Sort, ref *Term, elemT type
 		return ArraySort(SInt, sortOf(u.Elem())), Sel(v.T, 0), nil, true
 	}
 	return nil, nil, nil, false
+}
+
+// propagateDefs rewrites  V == t,  V.f == t,  V[r] == t,  V[r].f == t  (and their guarded forms
+// c ==> ...) over variables V that this call just havocked into substitutions for V.
+func (v *Verifier) propagateDefs(st *State, fresh map[*Term]bool, from int) {
+	for round := 0; round < 64; round++ {
+		changed := false
+		if from > len(st.pc) {
+			from = len(st.pc)
+		}
+		for _, t := range st.pc[from:] {
+			var guard *Term
+			eq := t
+			if t.Op == "=>" && t.Args[1].Op == "=" {
+				guard, eq = t.Args[0], t.Args[1]
+			}
+			if eq.Op != "=" {
+				continue
+			}
+			for side := 0; side < 2; side++ {
+				a, b := eq.Args[side], eq.Args[1-side]
+				if guard != nil {
+					a = underGuard(a, guard)
+				}
+				V, rebuildFn := defTarget(a, fresh)
+				if V == nil || mentions(b, V) || (guard != nil && mentions(guard, V)) {
+					continue
+				}
+				nv := Fresh(strings.TrimRight(V.Str, "0123456789!"), V.Sort)
+				fresh[nv] = true
+				val := b
+				if guard != nil {
+					val = Ite(guard, b, Subst(a, map[*Term]*Term{V: nv}))
+				}
+				st.substVarOpt(V, rebuildFn(nv, val), false)
+				changed = true
+				break
+			}
+			if changed {
+				break
+			}
+		}
+		if !changed {
+			return
+		}
+	}
+}
+
+// defTarget recognises an access path rooted at a fresh variable and returns the variable and
+// a function building "the variable with that path set to x" over a new base.
+func defTarget(a *Term, fresh map[*Term]bool) (*Term, func(base, x *Term) *Term) {
+	switch {
+	case a.Op == "var" && fresh[a]:
+		return a, func(base, x *Term) *Term { return x }
+	case a.Op == "sel" && a.Args[0].Op == "var" && fresh[a.Args[0]]:
+		i := a.Idx
+		return a.Args[0], func(base, x *Term) *Term { return Upd(base, i, x) }
+	case a.Op == "select" && a.Args[0].Op == "var" && fresh[a.Args[0]]:
+		r := a.Args[1]
+		if mentions(r, a.Args[0]) {
+			return nil, nil
+		}
+		return a.Args[0], func(base, x *Term) *Term { return Store(base, r, x) }
+	case a.Op == "sel" && a.Args[0].Op == "select" && a.Args[0].Args[0].Op == "var" && fresh[a.Args[0].Args[0]]:
+		i := a.Idx
+		r := a.Args[0].Args[1]
+		V := a.Args[0].Args[0]
+		if mentions(r, V) {
+			return nil, nil
+		}
+		return V, func(base, x *Term) *Term { return Store(base, r, Upd(Select(base, r), i, x)) }
+	}
+	return nil, nil
+}
+
+// underGuard simplifies ite(c, x, y) when c is the guard or its negation (also below selectors).
+func underGuard(a, guard *Term) *Term {
+	switch a.Op {
+	case "ite":
+		if a.Args[0] == guard {
+			return underGuard(a.Args[1], guard)
+		}
+		if a.Args[0] == Not(guard) {
+			return underGuard(a.Args[2], guard)
+		}
+	case "sel":
+		x := underGuard(a.Args[0], guard)
+		if x != a.Args[0] {
+			return Sel(x, a.Idx)
+		}
+	}
+	return a
 }
